@@ -26,6 +26,7 @@ ATTACH = {
     'raw_probes.rs': 'mla/src/layers/raw.rs',
     'lib_probes.rs': 'mla/src/lib.rs',
     'ecc_probes.rs': 'mla/src/crypto/ecc.rs',
+    'aesgcm_probes.rs': 'mla/src/crypto/aesgcm.rs',
     'helpers_probes.rs': 'mla/src/helpers.rs',
     'capi_probes.rs': 'bindings/C/src/lib.rs',
     'mlar_probes.rs': 'mlar/src/main.rs',
@@ -87,7 +88,8 @@ def run_probe(tests, keep=False):
                 results[t] = {'status': 'build-error', 'output': build_err}
                 break
             m = re.search(r'test result: (\w+)\. (\d+) passed; (\d+) failed', p.stdout)
-            if not m and ('signal: 11' in p.stderr or 'SIGSEGV' in p.stderr or 'signal: 6' in p.stderr or 'SIGABRT' in p.stderr):
+            if not m and ('signal: 11' in p.stderr or 'SIGSEGV' in p.stderr or 'signal: 6' in p.stderr or 'SIGABRT' in p.stderr
+                          or 'signal: 9' in p.stderr or 'SIGKILL' in p.stderr):
                 results[t] = {'status': 'FAILED', 'output': 'the test process CRASHED: ' + p.stderr[-600:]}
                 failed.append(t)
                 continue
